@@ -1420,6 +1420,8 @@ def bijection_zoo():
         ("Affine", aff(3), None), ("Loc", B.Loc(jnp.array([0.5, -1.0])), None), ("Scale", B.Scale(jnp.array([0.5, 2.0])), None), ("Exp", B.Exp((2,)), None), ("SoftPlus", B.SoftPlus((2,)), None),
         ("Tanh", B.Tanh((2,)), None), ("LeakyTanh", B.LeakyTanh(1.5, (3,)), None), ("Identity", B.Identity((2,)), None), ("Flip", B.Flip((3,)), None), ("Permute", B.Permute(jnp.array([2, 0, 1])), None),
         ("TriangularAffine", B.TriangularAffine(jnp.array([0.1, 0.2, 0.3]), jnp.array([[1.0, 5.0, 5.0], [0.3, 2.0, 5.0], [-0.4, 0.2, 0.5]])), None),
+        ("TriangularAffine(trained)", _perturb(B.TriangularAffine(jnp.array([0.1, 0.2, 0.3]), jnp.array([[1.0, 5.0, 5.0], [0.3, 2.0, 5.0], [-0.4, 0.2, 0.5]])), 4, scale=1.0), None),
+        ("TriangularAffine(upper, trained)", _perturb(B.TriangularAffine(jnp.array([0.1, -0.2]), jnp.array([[1.5, -0.7], [3.0, 0.4]]), lower=False), 5, scale=1.0), None),
         ("RationalQuadraticSpline", build_spline_perturbed(4, (-2.0, 3.0), 3), None),
         ("Planar(leaky)", _perturb(B.Planar(k, dim=3, negative_slope=0.2), 1), None), ("Planar(tanh)", _perturb(B.Planar(k, dim=3), 1), None), ("Planar(cond, leaky)", B.Planar(k, dim=2, cond_dim=2, negative_slope=0.5, width_size=4, depth=1), 2),
         ("AdditiveCondition", B.AdditiveCondition(lambda c: 0.5 * jnp.sum(c), (2,), (3,)), 3),
@@ -1700,6 +1702,57 @@ def rt_c04(tier="quick", first_only=False, count=None):
                     fails.append(dict(what=f"{name}: samples disagree with the density (KS statistic {D:.4f} on coordinate {ax}, n=20000, threshold 0.035)", case=case))
             if first_only and fails:
                 return fails
+    if count is not None:
+        count.append(n)
+    return fails
+
+
+def rt_triangular(tier="quick", first_only=False, count=None):
+    """TriangularAffine after arbitrary updates of every inexact leaf: triangular with positive diagonal, constructor reproduces
+    the triangle of arr, round trips, same point, log-dets vs autodiff"""
+    import flowjax.bijections as B
+    from flowjax.wrappers import unwrap
+
+    fails, n = [], 0
+    rng = np.random.default_rng(21)
+    for lower in (True, False):
+        for dim in (1, 2, 3, 4):
+            for seed in range(2 if tier == "quick" else 8):
+                arr = rng.normal(size=(dim, dim)) * 2
+                arr[np.diag_indices(dim)] = np.abs(np.diag(arr)) + 0.05
+                loc = rng.normal(size=(dim,))
+                b0 = B.TriangularAffine(jnp.asarray(loc), jnp.asarray(arr), lower=lower)
+                T0 = np.asarray(unwrap(b0).triangular)
+                want = np.tril(arr) if lower else np.triu(arr)
+                n += 1
+                case = dict(lower=lower, dim=dim, seed=seed)
+                if not np.allclose(T0, want, rtol=1e-9, atol=1e-9):
+                    fails.append(dict(what=f"TriangularAffine(lower={lower}, dim={dim}): constructed matrix {T0.tolist()} does not reproduce the triangle of arr {want.tolist()}", case=case))
+                b = _perturb(b0, 100 + seed, scale=1.5)
+                T = np.asarray(unwrap(b).triangular)
+                other = np.triu(T, 1) if lower else np.tril(T, -1)
+                if np.any(other != 0):
+                    fails.append(dict(what=f"TriangularAffine(lower={lower}, dim={dim}) after an update of every trainable leaf: unwrapped matrix is not triangular: {T.tolist()}", case=case))
+                if np.any(np.diag(T) <= 0):
+                    fails.append(dict(what=f"TriangularAffine(lower={lower}, dim={dim}) after an update: diagonal {np.diag(T).tolist()} not strictly positive", case=case))
+                x = jnp.asarray(rng.normal(size=(dim,)))
+                y = b.transform(x)
+                y2, ld = b.transform_and_log_det(x)
+                xb = b.inverse(y)
+                xb2, ldi = b.inverse_and_log_det(y)
+                J = np.asarray(jax.jacobian(b.transform)(x), float)
+                cond = max(1.0, float(np.linalg.cond(J)))
+                if not np.allclose(np.asarray(xb), np.asarray(x), rtol=1e-9 * cond, atol=1e-9 * cond):
+                    fails.append(dict(what=f"TriangularAffine(lower={lower}, dim={dim}) after an update: inverse(transform(x)) = {np.asarray(xb).tolist()} for x = {np.asarray(x).tolist()}", case=case))
+                if not np.allclose(np.asarray(y2), np.asarray(y)) or not np.allclose(np.asarray(xb2), np.asarray(xb)):
+                    fails.append(dict(what=f"TriangularAffine(lower={lower}, dim={dim}): '..._and_log_det' variant returns a different point", case=case))
+                la = np.linalg.slogdet(J)[1]
+                if not _close(ld, la, tol=1e-7):
+                    fails.append(dict(what=f"TriangularAffine(lower={lower}, dim={dim}) after an update: forward log-det {float(ld)!r} but autodiff log|det J| = {float(la)!r}", case=case))
+                if not _close(ldi, -la, tol=1e-7):
+                    fails.append(dict(what=f"TriangularAffine(lower={lower}, dim={dim}) after an update: inverse log-det {float(ldi)!r} but minus the forward value is {float(-la)!r}", case=case))
+                if first_only and fails:
+                    return fails
     if count is not None:
         count.append(n)
     return fails
